@@ -190,6 +190,45 @@ IsGenericCall: id '<' (Type separator ',')+ '>' '(' ;
 IsCall: id '(' ;
 `
 
+// a chain whose FIRST case is negated: (?= !A) | (?= A & B) | (?= A & !B)
+const famLookaheadNegated = `language %NAME%(go);
+
+lang = "%NAME%"
+package = "github.com/inspirer/textmapper/zzverif/gen/%NAME%"
+eventBased = true
+cancellable = true
+recursiveLookaheads = true
+%OPTS%
+
+:: lexer
+
+ws: /[ \t\r\n]+/ (space)
+id: /[a-zA-Z_][a-zA-Z_0-9]*/
+num: /[0-9]+/
+'[': /\[/
+']': /\]/
+',': /,/
+';': /;/
+':': /:/
+'-': /-/
+
+:: parser
+
+%input File;
+
+File -> File: Item+ ;
+
+Item -> Item:
+    (?= !IsNums) '[' '-'* (id separator ',')+ ']' ';'                      -> Ids
+  | (?= IsNums & IsTyped) '[' '-'* (num separator ',')+ ':' id ']' ';'     -> TypedNums
+  | (?= IsNums & !IsTyped) '[' '-'* (num separator ',')+ ']' ';'           -> Nums
+  | id ';'                                                                 -> Name
+;
+
+IsNums: '[' '-'* num ;
+IsTyped: '[' '-'* (num separator ',')+ ':' ;
+`
+
 var genFamilies = []*genFamily{
 	{
 		name: "stmts", text: famStmts, recovery: true, space: []string{"COMMENT", "INVALID_TOKEN"},
@@ -208,6 +247,15 @@ var genFamilies = []*genFamily{
 			"([a, [b, [c]]]);", "(x) => y;",
 		},
 		knobs: []string{"optimizeTables", "cancellableFetch", "tokenLine"},
+	},
+	{
+		name: "lanegated", text: famLookaheadNegated, lookaheads: true,
+		sep: "\n",
+		items: []string{
+			"[a, b, c];", "[- - - - - - a];", "[- - - x, y];", "[1, 2, 3];", "[- - 1, 2, 3, 4, 5, 6];", "[1, 2, 3 : t];", "[- - - - 7 : u];", "name;",
+			"[- - - - - - - - - - - - k];",
+		},
+		knobs: []string{"optimizeTables", "cancellableFetch"},
 	},
 	{
 		name: "larecover", text: famLookaheadRecover, recovery: true, lookaheads: true, space: []string{"INVALID_TOKEN"},
@@ -289,9 +337,9 @@ func generateBatch(cfg *config, ov *overlay, info map[string]any) error {
 		return fmt.Errorf("building the current tree's textmapper: %w", err)
 	}
 	src := sim.NewSearch(cfg.seed, 0x67656e) // batch options come from the seed too
-	n := 6
+	n := 8
 	if cfg.tier == "thorough" {
-		n = 12
+		n = 16
 	}
 	var insts []*genInstance
 	var skipped []string
